@@ -54,11 +54,15 @@ Presented(c) ==
 Verifies(c) == LET p == Presented(c) IN Verify(p.key, p.msg, p.sig)
 
 \* ---- JWK encodings (C16) ---------------------------------------------------------------------
-CoordShapes(kt) == IF kt = "ed" THEN {"any"} ELSE {"normal", "x_leading_zero", "y_leading_zero"}
+\* (two leading zero bytes / both coordinates short occur once in 65 536 keys: sampled for two curves)
+CoordShapes(kt) == IF kt = "ed" THEN {"any"}
+                   ELSE {"normal", "x_leading_zero", "y_leading_zero"}
+                          \cup (IF kt \in {"k1", "p256"} THEN {"x_two_leading_zeros", "both_leading_zero"} ELSE {})
 JwkMods == {"none", "off_curve", "x_short", "x_long", "y_short", "y_long", "x_empty", "wrong_crv_name", "x_not_base64"}
 ModApplies(kt, m) == kt # "ed" \/ m \in {"none", "x_short", "x_long", "x_empty", "x_not_base64"}
 
-JwkCases == {[kind |-> "jwk", kt |-> kt, shape |-> sh, mod |-> m] : kt \in KeyTypes, sh \in {"any", "normal", "x_leading_zero", "y_leading_zero"}, m \in JwkMods}
+JwkCases == {[kind |-> "jwk", kt |-> kt, shape |-> sh, mod |-> m] : kt \in KeyTypes,
+               sh \in {"any", "normal", "x_leading_zero", "y_leading_zero", "x_two_leading_zeros", "both_leading_zero"}, m \in JwkMods}
 ValidJwkCase(c) == c.shape \in CoordShapes(c.kt) /\ ModApplies(c.kt, c.mod)
 
 \* an unmodified key round-trips at full width; every modification is rejected
